@@ -136,6 +136,37 @@ Proof.
     + apply IH in H. lia.
 Qed.
 
+Lemma mapM_ext {A B} (f g : A -> res B) l : (forall x, In x l -> f x = g x) -> mapM f l = mapM g l.
+Proof.
+  induction l as [|x l IH]; intros H; [reflexivity|]. cbn [mapM].
+  rewrite (H x (or_introl eq_refl)), IH; [reflexivity|]. intros y Hy. apply H. right. exact Hy.
+Qed.
+
+Lemma In_nrange_k k : forall a x, In x (nrange_k a k) -> a <= x /\ x < a + N.of_nat k.
+Proof.
+  induction k as [|k IH]; intros a x H; cbn [nrange_k] in H; [contradiction|].
+  destruct H as [<-|H]; [lia|]. apply IH in H. lia.
+Qed.
+
+Lemma sum_cblen_range lens k : forall a,
+  sumN (map (cblen lens) (nrange_k a k)) = pre lens (a + N.of_nat k) - pre lens a.
+Proof.
+  induction k as [|k IH]; intros a.
+  - cbn [nrange_k map]. change (sumN []) with 0. replace (a + N.of_nat 0) with a by lia. lia.
+  - cbn [nrange_k map]. rewrite sumN_cons, IH.
+    replace (a + 1 + N.of_nat k) with (a + N.of_nat (S k)) by lia.
+    pose proof (pre_succ lens a). pose proof (pre_mono lens (a + 1) (a + N.of_nat (S k)) ltac:(lia)). lia.
+Qed.
+
+Lemma lenN_nrange_k k : forall a, lenN (nrange_k a k) = N.of_nat k.
+Proof. induction k as [|k IH]; intros a; [reflexivity|]. cbn [nrange_k]. rewrite lenN_cons, IH. lia. Qed.
+
+Lemma sum_cblen_nrange lens a b : sumN (map (cblen lens) (nrange a b)) <= sumN lens.
+Proof. unfold nrange. rewrite sum_cblen_range. pose proof (pre_le_sum lens (a + N.of_nat (N.to_nat (b - a)))). lia. Qed.
+
+Lemma lenN_nrange a b : lenN (nrange a b) = b - a.
+Proof. unfold nrange. rewrite lenN_nrange_k. lia. Qed.
+
 Section Text.
 (** a text: positive cluster byte lengths, at most [isize::MAX] bytes; [isb] is true on every
     cluster boundary *)
@@ -196,30 +227,16 @@ Proof.
   rewrite madd_ok by lia. cbn [bind]. apply IH; lia.
 Qed.
 
-Lemma sum_cblen_range k : forall a,
-  sumN (map (cblen lens) (nrange_k a k)) = pre lens (a + N.of_nat k) - pre lens a.
-Proof.
-  induction k as [|k IH]; intros a.
-  - cbn [nrange_k map]. change (sumN []) with 0. replace (a + N.of_nat 0) with a by lia. lia.
-  - cbn [nrange_k map]. rewrite sumN_cons, IH.
-    replace (a + 1 + N.of_nat k) with (a + N.of_nat (S k)) by lia.
-    pose proof (pre_succ lens a). pose proof (pre_mono lens (a + 1) (a + N.of_nat (S k)) ltac:(lia)). lia.
-Qed.
 
-Lemma lenN_nrange_k k : forall a, lenN (nrange_k a k) = N.of_nat k.
-Proof. induction k as [|k IH]; intros a; [reflexivity|]. cbn [nrange_k]. rewrite lenN_cons, IH. lia. Qed.
 
-Lemma sum_cblen_nrange a b : sumN (map (cblen lens) (nrange a b)) <= sumN lens.
-Proof. unfold nrange. rewrite sum_cblen_range. pose proof (pre_le_sum lens (a + N.of_nat (N.to_nat (b - a)))). lia. Qed.
 
-Lemma lenN_nrange a b : lenN (nrange a b) = b - a.
-Proof. unfold nrange. rewrite lenN_nrange_k. lia. Qed.
+
 
 Lemma mcount_fwd maxl a b : b <= lenN lens ->
   mcount_until p (cs_new lens) (nrange a b) maxl 0 0 = count_until (cs_new lens) (nrange a b) maxl 0 0.
 Proof.
   intros H. pose proof W_ISIZE. apply mcount_ok.
-  - pose proof (sum_cblen_nrange a b). lia.
+  - pose proof (sum_cblen_nrange lens a b). lia.
   - rewrite lenN_nrange. lia.
 Qed.
 
@@ -227,22 +244,12 @@ Lemma mcount_bwd maxl a b : b <= lenN lens ->
   mcount_until p (cs_new lens) (rev (nrange a b)) maxl 0 0 = count_until (cs_new lens) (rev (nrange a b)) maxl 0 0.
 Proof.
   intros H. pose proof W_ISIZE. apply mcount_ok.
-  - rewrite map_rev, sumN_rev. pose proof (sum_cblen_nrange a b). lia.
+  - rewrite map_rev, sumN_rev. pose proof (sum_cblen_nrange lens a b). lia.
   - unfold lenN. rewrite rev_length. fold (lenN (nrange a b)). rewrite lenN_nrange. lia.
 Qed.
 
 (** * possible_character_substrings *)
-Lemma mapM_ext {A B} (f g : A -> res B) l : (forall x, In x l -> f x = g x) -> mapM f l = mapM g l.
-Proof.
-  induction l as [|x l IH]; intros H; [reflexivity|]. cbn [mapM].
-  rewrite (H x (or_introl eq_refl)), IH; [reflexivity|]. intros y Hy. apply H. right. exact Hy.
-Qed.
 
-Lemma In_nrange_k k : forall a x, In x (nrange_k a k) -> a <= x /\ x < a + N.of_nat k.
-Proof.
-  induction k as [|k IH]; intros a x H; cbn [nrange_k] in H; [contradiction|].
-  destruct H as [<-|H]; [lia|]. apply IH in H. lia.
-Qed.
 
 Lemma mpcs_ok maxc : mpcs p lens maxc = pcs lens maxc.
 Proof.
